@@ -187,42 +187,48 @@ impl FeelContext {
   pub fn create_entry(&mut self, qname: &QualifiedName, value: Value) {
     self.create_deep(qname.as_slice(), value);
   }
-  /// Returns a list of flattened keys for this [FeelContext].
+  /// Returns a list of flattened keys for this [FeelContext]: the name of every entry of this context
+  /// and of the contexts nested in it, and every path (names joined with ` . `) that leads from
+  /// one of these entries down to an entry nested in it.
   pub fn flatten_keys(&self) -> HashSet<String> {
     let mut keys: HashSet<String> = HashSet::new();
+    self.collect_paths(&mut keys);
+    keys
+  }
+  /// Adds to `keys` all paths that begin at an entry of this context or of a context nested in it,
+  /// returns the paths that begin at the entries of this context. The number of paths grows with the
+  /// square of the nesting depth (combining every flattened key of a nested context again with the
+  /// keys above it doubled the set with every level of nesting).
+  fn collect_paths(&self, keys: &mut HashSet<String>) -> HashSet<String> {
+    let mut paths: HashSet<String> = HashSet::new();
     for (key, value) in self.0.iter() {
-      keys.insert(key.into());
-      if let Value::Context(sub_ctx) = value {
-        let sub_keys = sub_ctx.flatten_keys();
-        if !sub_keys.is_empty() {
-          for sub_key in sub_keys {
-            keys.insert(sub_key.clone());
-            keys.insert(format!("{} . {}", key, sub_key));
-          }
-        }
-      }
-      if let Value::List(items) = value {
-        for item in items.as_vec() {
-          if let Value::Context(item_ctx) = item {
-            let sub_keys = item_ctx.flatten_keys();
-            if !sub_keys.is_empty() {
-              for sub_key in sub_keys {
-                keys.insert(sub_key.clone());
-                keys.insert(format!("{} . {}", key, sub_key)); //TODO add test for this case, nothing happened after adding spaces
-              }
+      let key: String = key.into();
+      let mut sub_paths: HashSet<String> = HashSet::new();
+      match value {
+        Value::Context(sub_ctx) => sub_paths = sub_ctx.collect_paths(keys),
+        Value::List(items) => {
+          for item in items.as_vec() {
+            if let Value::Context(item_ctx) = item {
+              sub_paths.extend(item_ctx.collect_paths(keys));
             }
           }
         }
-      }
-      if let Value::FeelType(FeelType::Context(a)) = value {
-        for name in a.keys() {
-          let sub_key = name.to_string();
-          keys.insert(sub_key.clone());
-          keys.insert(format!("{} . {}", key, sub_key)); //TODO add test for this case, nothing happened after adding spaces
+        Value::FeelType(FeelType::Context(a)) => {
+          for name in a.keys() {
+            let sub_key = name.to_string();
+            keys.insert(sub_key.clone());
+            sub_paths.insert(sub_key);
+          }
         }
+        _ => {}
       }
+      for sub_path in sub_paths {
+        paths.insert(format!("{} . {}", key, sub_path));
+      }
+      paths.insert(key);
     }
-    keys.iter().cloned().collect()
+    keys.extend(paths.iter().cloned());
+    paths
   }
   /// Searches for a value of an entry pointed by specified qualified name.
   pub fn search_entry<'search>(&'search self, qname: &'search QualifiedName) -> Option<&'search Value> {
